@@ -60,6 +60,7 @@ type Thread struct {
 	deferringFrame *Frame
 	vc             VC
 	parked         bool
+	parkedAny      bool // environment thread that may also be resumed at any scheduling point (costs a delay)
 	lib            bool // goroutine started by library (non-harness) code
 	atomicDepth    int
 	spawnSite      string
@@ -181,10 +182,11 @@ func (t *Thread) handoff(next *Thread) {
 	}
 }
 
-// enabled lists the threads that can make progress, in round-robin order after from.
+// enabled lists the threads that can make progress, in round-robin order after from;
+// environment threads parked with verifPauseAny come last (they are never the base choice).
 func (r *Run) enabledAfter(from *Thread) []*Thread {
 	n := len(r.threads)
-	var out []*Thread
+	var out, any []*Thread
 	for k := 1; k <= n; k++ {
 		th := r.threads[(from.id+k)%n]
 		if th == from {
@@ -192,9 +194,20 @@ func (r *Run) enabledAfter(from *Thread) []*Thread {
 		}
 		if th.state == tRunnable || (th.state == tBlocked && !th.parked && th.cond != nil && th.cond()) {
 			out = append(out, th)
+		} else if th.state == tBlocked && th.parkedAny && r.delaysUsed < r.e.cfg.Delays {
+			any = append(any, th)
 		}
 	}
-	return out
+	r.nNormal = len(out)
+	return append(out, any...)
+}
+
+func (th *Thread) unpark() {
+	if th.parkedAny || th.parked {
+		th.parked = false
+		th.parkedAny = false
+		th.cond = func() bool { return true }
+	}
 }
 
 // yield is a scheduling point of a thread that can continue.
@@ -218,6 +231,7 @@ func (t *Thread) yield(label string) {
 	}
 	r.delaysUsed++
 	t.state = tRunnable
+	others[k-1].unpark()
 	t.handoff(others[k-1])
 }
 
@@ -245,7 +259,16 @@ func (r *Run) dispatch(t *Thread) {
 		if t.state == tBlocked && !t.parked && t.cond != nil && t.cond() {
 			en = append(en, t)
 		}
-		if len(en) > 0 {
+		normal := r.nNormal
+		if t.state == tBlocked && !t.parked && t.cond != nil && t.cond() {
+			normal++
+		}
+		if normal > 0 {
+			// keep the base choice a normal thread: move t (if re-enabled) before the any-parked ones
+			if len(en) > 1 && en[len(en)-1] == t && normal < len(en) {
+				copy(en[normal:], en[normal-1:len(en)-1])
+				en[normal-1] = t
+			}
 			k := 0
 			if len(en) > 1 && r.delaysUsed < r.e.cfg.Delays {
 				k = r.decide('S', len(en), "dispatch", 1)
@@ -254,6 +277,7 @@ func (r *Run) dispatch(t *Thread) {
 				}
 			}
 			next := en[k]
+			next.unpark()
 			if next == t {
 				return
 			}
